@@ -37,6 +37,9 @@ MCDecls == <<
   D("MethLocal",  "iface",       "method", "go"),
   D("Second",     "iface",       "pkg",    "go2"),
   D("Gen",        "iface",       "func",   "go2"),
+  D("Streamer",   "iface",       "pkg",    "genother"),
+  D("Stringer",   "embed",       "pkg",    "genfree"),
+  D("Keeper",     "iface",       "pkg",    "genown"),
   D("InTest",     "iface",       "pkg",    "test"),
   D("Tagged",     "iface",       "pkg",    "tagged") >>
 
@@ -44,12 +47,12 @@ MCNames == {MCDecls[j].name : j \in 1..Len(MCDecls)} \cup {"Missing"}
 
 \* Go regexp.MatchString semantics (unanchored search)
 MCMatchSets ==
-     "er$"              :> {"Reader", "Writer", "readCloser", "Embedder", "Number", "Handler", "Holder", "InstHolder", "Counter", "NamedOver", "AliasOver"}
+     "er$"              :> {"Reader", "Writer", "readCloser", "Embedder", "Number", "Handler", "Holder", "InstHolder", "Counter", "NamedOver", "AliasOver", "Streamer", "Stringer", "Keeper"}
   @@ "^(Reader|Gen)$"   :> {"Reader", "Gen"}
   @@ "Inst"             :> {"InstDef", "InstDef2", "InstAlias", "InstHolder"}
   @@ "(?i)^read"        :> {"Reader", "readCloser"}
   @@ "."                :> MCNames
-  @@ "^[A-Z][a-z]+$"    :> {"Reader", "Writer", "Gen", "Embedder", "Empty", "Grouped", "Number", "Mixed", "Conf", "Handler", "Holder", "Counter", "Local", "Second", "Tagged", "Missing"}
+  @@ "^[A-Z][a-z]+$"    :> {"Reader", "Writer", "Gen", "Embedder", "Empty", "Grouped", "Number", "Mixed", "Conf", "Handler", "Holder", "Counter", "Local", "Second", "Tagged", "Missing", "Streamer", "Stringer", "Keeper"}
 
 MCMatch == [p \in DOMAIN MCMatchSets |-> [n \in MCNames |-> n \in MCMatchSets[p]]]
 
@@ -59,9 +62,9 @@ MCPatsThorough == <<"er$", "^(Reader|Gen)$", "Inst", "(?i)^read", ".", "^[A-Z][a
 E(n, f, k) == [name |-> n, form |-> f, n |-> k]
 LV0 == << >>
 LV1 == <<E("Reader", "null", 0)>>
-LV2 == <<E("Reader", "configs", 2), E("InstDef", "config", 0)>>
+LV2 == <<E("Reader", "configs", 2), E("InstDef", "config", 0), E("Streamer", "null", 0)>>
 LV3 == <<E("Conf", "null", 0), E("Gen", "configs", 1)>>
-LV4 == <<E("readCloser", "configs", 0), E("Writer", "configs", 3)>>
+LV4 == <<E("readCloser", "configs", 0), E("Writer", "configs", 3), E("Keeper", "configs", 2)>>
 LV5 == <<E("Missing", "null", 0), E("Second", "configs", 2)>>
 LV6 == <<E("Local", "null", 0), E("Handler", "config", 0), E("Embedder", "configs", 2)>>
 LV7 == <<E("AliasOver", "configs", 2), E("Number", "null", 0), E("InTest", "null", 0)>>
